@@ -14,6 +14,7 @@ DYNAMIC = ["abort", "budget", "handler-defer", "handler-abort", "deadline-after-
 def _one(ctx, sc, entry, stats, sample=False):
     recs, h, w = rig.run(sc, entry)
     ctx.inc("runs")
+    ctx.inc("calls", len(recs))
     before = sum(v for k, v in stats.items() if k.startswith("static_"))
     common.check_recs(ctx, sc, entry, recs, [O.o_permit], stats)
     after = sum(v for k, v in stats.items() if k.startswith("static_"))
@@ -76,7 +77,7 @@ def conclude(ctx):
             "contains at least one failed attempt on which the predicate was evaluated; distinct = distinct (config, script, placement, entry) hashes; "
             "cells static_false:<c> count segments where <c> was the ONLY false static conjunct, static_true:<d> where the static part held and <d> decided"
         ),
-        evaluations=ctx.cnt["runs"],
+        evaluations=ctx.cnt["calls"],
         nontrivial=len(ctx.sets["nontrivial"]),
         floors=floors,
         assumptions=common.ASSUME_COMMON + ["the budget's answer is taken as observed at the spy (C10 checks its correctness)", "when several stop conditions hold any of them is accepted as the reported reason"],
